@@ -22,8 +22,9 @@ from fractions import Fraction
 
 ID = "C20"
 DRIVER = "drv_c20"
-LEAN_TARGETS = ["PharmpyProofs.C20.Properties", "PharmpyProofs.C20.CovProperties", "drv_c20"]
-PROPERTIES = ["PharmpyProofs/C20/Properties.lean", "PharmpyProofs/C20/CovProperties.lean"]
+LEAN_TARGETS = ["PharmpyProofs.C20.Properties", "PharmpyProofs.C20.CovProperties", "PharmpyProofs.C20.ResultsProperties", "drv_c20"]
+PROPERTIES = ["PharmpyProofs/C20/Properties.lean", "PharmpyProofs/C20/CovProperties.lean",
+              "PharmpyProofs/C20/ResultsProperties.lean"]
 LEAN_SOURCES = ["PharmpyModel/C20/*.lean", "PharmpyModel/Generated/ExtCodes.lean", "PharmpyProofs/C20/*.lean",
                 "Drivers/C20.lean", "PharmpyModel/Core/Sexp.lean"]
 TIME_LIMIT = {"quick": 900, "thorough": 3000}
@@ -520,7 +521,8 @@ def gen_relations(rng):
 
 
 def gen_rundir(rng):
-    """a complete run directory (mod, csv, lst, ext and any non-empty subset of cov/cor/coi)"""
+    """a complete run directory (mod, csv, lst, ext and any non-empty subset of cov/cor/coi); parameters in file order
+    THETA1.., SIGMA(1,1), OMEGA(i,i); any of them FIXed (at least one estimated); any of the special ext rows absent"""
     nth = rng.randint(1, 4)
     nom = rng.randint(1, min(2, nth))
     n = nth + nom + 1
@@ -528,8 +530,28 @@ def gen_rundir(rng):
     files = rng.choice([["cov"], ["cov", "coi"], ["coi"], ["cor"], ["cov", "cor"], ["cov", "cor", "coi"], ["cor", "coi"]])
     est = [10 ** rng.uniform(-4, 2) for _ in range(n)]
     rel = [10 ** rng.uniform(-2.5, -0.7) for _ in range(n)]       # relative standard errors
+    r = rng.random()
+    if r < 0.35:
+        fixed = [False] * n
+    elif r < 0.6:
+        fixed = [i == rng.randrange(n) for i in range(n)]             # exactly one, any position
+    else:
+        fixed = [rng.random() < 0.4 for _ in range(n)]
+    if all(fixed):
+        fixed[rng.randrange(n)] = False
+    r = rng.random()
+    rows = {"se": True, "sdcorr": True, "sdcorr_se": True, "fixedrow": True}
+    if r < 0.12:
+        rows["fixedrow"] = False          # NM 7.2: FIX flags from the model
+    elif r < 0.18:
+        rows["sdcorr_se"] = False         # pharmpy treats this as an aborted covariance step
+    elif r < 0.24:
+        rows["se"] = rows["sdcorr_se"] = False
+        files = []                        # no covariance step results at all: NONMEM writes no .cov/.cor/.coi either
+    elif r < 0.30:
+        rows["sdcorr"] = False
     return {"kind": "rundir", "nth": nth, "nom": nom, "a": a, "blocks": blocks, "est": est,
-            "se": [e * r for e, r in zip(est, rel)], "files": files}
+            "se": [e * q for e, q in zip(est, rel)], "files": files, "fixed": fixed, "rows": rows}
 
 
 def gen_json(rng):
@@ -562,7 +584,7 @@ def gen_cases(rng, n, tier):
             c = gen_cov(rng, hostile)
         elif r < 0.92:
             c = gen_generic(rng, hostile)
-        elif r < 0.95:
+        elif r < 0.945:
             c = gen_relations(rng)
         elif r < 0.975:
             c = gen_rundir(rng)
@@ -618,7 +640,11 @@ def corpus_cases():
           "blocks": [0, 0, 1, 0], "est": [0.0042, 0.00075, 0.011, 0.032], "se": [6.1e-05, 2.3e-05, 0.0023, 0.0075],
           "files": ["cov", "cor", "coi"], "seed": 7}
     rd2 = {**rd, "files": ["cor"], "seed": 8}
-    return [ext, ext2, ext3, gen, gen2, gen3, rd, rd2]
+    allrows = {"se": True, "sdcorr": True, "sdcorr_se": True, "fixedrow": True}
+    # FIXed parameters in several positions (a fixed THETA is absent from the sd/corr rows -1000000004/-5)
+    rd3 = {**rd, "files": ["cov"], "fixed": [False, True, False, False], "rows": allrows, "seed": 9}
+    rd4 = {**rd, "files": ["cov", "coi"], "fixed": [True, False, True, False], "rows": {**allrows, "fixedrow": False}, "seed": 10}
+    return [ext, ext2, ext3, gen, gen2, gen3, rd, rd2, rd3, rd4]
 
 
 def shrink(case):
@@ -1381,24 +1407,49 @@ Mon Jan  1 10:00:04 CET 2024
 """
 
 
-def run_rundir(case, mon, tags):
-    """read_modelfit_results on a complete run directory: what is reported together must be consistent, whatever
-    subset of .cov/.cor/.coi exists and whatever the units of the parameters"""
+def model_name(lab):
+    """name pharmpy gives an uncommented parameter: THETA1 -> THETA_1, OMEGA(2,1) -> OMEGA_2_1"""
+    import re
+    m = re.fullmatch(r"THETA\(?(\d+)\)?", lab)
+    if m:
+        return f"THETA_{m.group(1)}"
+    m = re.fullmatch(r"(OMEGA|SIGMA)\((\d+),(\d+)\)", lab)
+    return f"{m.group(1)}_{m.group(2)}_{m.group(3)}"
+
+
+def series_items(x):
+    """[(label, value)] of a reported Series, or a description of what it is instead"""
+    if isinstance(x, pd.Series) and not isinstance(x.index, pd.MultiIndex):
+        return [(str(i), v) for i, v in zip(x.index, x.values)]
+    return None
+
+
+def run_rundir(case, drv, k, mon, tags):
+    """parse_modelfit_results on a complete run directory: estimates / standard errors (and their sd-corr forms) come
+    from the designated ext rows for exactly the non-fixed parameters; what is reported together is consistent,
+    whatever subset of .cov/.cor/.coi exists, whatever is FIXed and whatever the units of the parameters"""
     from pharmpy.model import Model
     from pharmpy.tools.external.nonmem.results import parse_modelfit_results
     nth, nom = case["nth"], case["nom"]
-    n = nth + nom + 1
     files = case["files"]
-    tags.append("rundir:" + "+".join(files))
-    # NONMEM order THETA, SIGMA, OMEGA (diagonal omegas only: no unused off-diagonals when nom == 1)
+    rowsp = case.get("rows", {"se": True, "sdcorr": True, "sdcorr_se": True, "fixedrow": True})
+    tags.append("rundir:" + ("+".join(files) or "no-matrix-files"))
+    # NONMEM order THETA, SIGMA, OMEGA
     om_labels = tri_labels("OMEGA", nom)
     nm = [f"THETA{i+1}" for i in range(nth)] + ["SIGMA(1,1)"] + om_labels
-    est_par = [f"THETA{i+1}" for i in range(nth)] + ["SIGMA(1,1)"] + [f"OMEGA({i+1},{i+1})" for i in range(nom)]
-    R = corr_structure(case)
-    se = np.array([float(cell_value(sci_cell(x))) for x in case["se"]])
-    est = dict(zip(est_par, case["est"]))
-    sed = dict(zip(est_par, se))
-    idx = {lab: i for i, lab in enumerate(est_par)}
+    par = [f"THETA{i+1}" for i in range(nth)] + ["SIGMA(1,1)"] + [f"OMEGA({i+1},{i+1})" for i in range(nom)]
+    fixed = dict(zip(par, case.get("fixed", [False] * len(par))))
+    free = [lab for lab in par if not fixed[lab]]
+    n = len(free)
+    tags.append(f"rundir:fixed-thetas={sum(fixed[x] for x in par[:nth])}")
+    tags.append(f"rundir:fixed-other={sum(fixed[x] for x in par[nth:])}")
+    tags += [f"rundir:no-{r_}-row" for r_, v in rowsp.items() if not v]
+    sub = {"a": [r[:n] for r in case["a"][:n]], "blocks": case["blocks"][:n]}
+    R = corr_structure(sub)
+    est = dict(zip(par, case["est"]))
+    sed_all = dict(zip(par, [float(cell_value(sci_cell(x))) for x in case["se"]]))
+    se = np.array([sed_all[lab] for lab in free])
+    idx = {lab: i for i, lab in enumerate(free)}
     cov_e = R * np.outer(se, se)
     covw = np.array([[float(cell_value(sci_cell(x))) for x in r] for r in cov_e])
     covw = (covw + covw.T) / 2
@@ -1408,7 +1459,7 @@ def run_rundir(case, mon, tags):
     tags.append("rundir:min-var=1e%d" % int(np.floor(np.log10(np.diag(covw).min()))))
 
     def full(m):
-        """estimated-parameter matrix -> NONMEM's full table (unused off-diagonal omegas: zero rows/columns)"""
+        """estimated-parameter matrix -> NONMEM's full table (fixed / unused elements: zero rows and columns)"""
         return [[(m[idx[a], idx[b]] if a in idx and b in idx else 0.0) for b in nm] for a in nm]
     title = {"method": "First Order Conditional Estimation with Interaction", "design": None, "goal": None, "nums": [1, 0, 0, 0, 0, 0]}
 
@@ -1416,35 +1467,41 @@ def run_rundir(case, mon, tags):
         tab = {"number": 1, "now": 6, "title": title, "hw": 13, "names": ["NAME"] + nm, "cols": [[13, "l"]] + [[13, "r"]] * len(nm),
                "rows": [[["l", a]] + [sci_cell(x) for x in row] for a, row in zip(nm, full(m))]}
         return [render_title(tab)] + render_body(tab)
+    e = lambda lab: est.get(lab, 0.0)
+    isvar = lambda lab: not lab.startswith("THETA")
+    zero_obj = ["f", False, 0, 16, 0]
+    row_fns = {
+        C_SE: lambda lab: sed_all[lab] if lab in idx else 1e10,
+        C_SDCORR: lambda lab: (np.sqrt(e(lab)) if isvar(lab) and lab in est else 0.0),
+        C_SDCORR_SE: lambda lab: (sed_all[lab] / (2 * np.sqrt(e(lab))) if isvar(lab) and lab in idx else (0.0 if not isvar(lab) else 1e10)),
+        C_FIXED: lambda lab: 0.0 if lab in idx else 1.0,
+    }
+    present = [C_FINAL] + [c for c, key in ((C_SE, "se"), (C_SDCORR, "sdcorr"), (C_SDCORR_SE, "sdcorr_se"), (C_FIXED, "fixedrow")) if rowsp[key]]
 
-    def ext_lines():
-        def row(it, f, obj):
-            return [["i", it]] + [sci_cell(f(lab)) for lab in nm] + [obj]
-        e = lambda lab: est.get(lab, 0.0)
-        isvar = lambda lab: not lab.startswith("THETA")
-        rows = [row(0, lambda lab: 1.1 * e(lab), ["f", False, 587, 14, 36644134661617]),
+    def row(it, f, obj):
+        return [["i", it]] + [sci_cell(f(lab)) for lab in nm] + [obj]
+    ext_rows = [row(0, lambda lab: e(lab) if fixed.get(lab, True) else 1.1 * e(lab), ["f", False, 587, 14, 36644134661617]),
                 row(9, e, ["f", False, 586, 14, 27605628188053]),
-                row(C_FINAL, e, ["f", False, 586, 14, 27605628188053]),
-                row(C_SE, lambda lab: sed.get(lab, 1e10), ["f", False, 0, 16, 0]),
-                row(C_SDCORR, lambda lab: (np.sqrt(e(lab)) if isvar(lab) and lab in est else 0.0), ["f", False, 0, 16, 0]),
-                row(C_SDCORR_SE, lambda lab: (sed[lab] / (2 * np.sqrt(e(lab))) if isvar(lab) and lab in est else (0.0 if lab in est else 1e10)), ["f", False, 0, 16, 0]),
-                row(C_FIXED, lambda lab: 0.0 if lab in est else 1.0, ["f", False, 0, 16, 0])]
-        tab = {"number": 1, "now": 6, "title": title, "hw": 13, "names": ["ITERATION"] + nm + ["OBJ"],
-               "cols": [[13, "r"]] * (1 + len(nm)) + [[22, "r"]], "rows": rows}
-        return [render_title(tab)] + render_body(tab)
+                row(C_FINAL, e, ["f", False, 586, 14, 27605628188053])] + \
+               [row(c, row_fns[c], zero_obj) for c in present[1:]]
+    ext_tab = {"number": 1, "now": 6, "title": title, "hw": 13, "names": ["ITERATION"] + nm + ["OBJ"],
+               "cols": [[13, "r"]] * (1 + len(nm)) + [[22, "r"]], "rows": ext_rows}
+    ext_lines = [render_title(ext_tab)] + render_body(ext_tab)
+    written = {c: {lab: cell_value(cellv) for lab, cellv in zip(nm, r_[1:-1])} for c, r_ in zip([0, 9] + present, ext_rows)}
+    fx = lambda lab: " FIX" if fixed[lab] else ""
     pred = [f"P{i+1} = THETA({i+1})" + (f"*EXP(ETA({i+1}))" if i < nom else "") for i in range(nth)]
     mod = ["$PROBLEM run", "$INPUT ID TIME DV", "$DATA run1.csv IGNORE=@", "$PRED"] + pred + \
           ["Y = " + "+".join(f"P{i+1}" for i in range(nth)) + " + EPS(1)"] + \
-          [f"$THETA (0,{sci_to_str(est[f'THETA{i+1}'])})" for i in range(nth)] + \
-          [f"$OMEGA {sci_to_str(est[f'OMEGA({i+1},{i+1})'])}" for i in range(nom)] + \
-          [f"$SIGMA {sci_to_str(est['SIGMA(1,1)'])}", "$ESTIMATION METHOD=1 INTER", "$COVARIANCE"]
+          [f"$THETA (0,{sci_to_str(est[f'THETA{i+1}'])}){fx(f'THETA{i+1}')}" for i in range(nth)] + \
+          [f"$OMEGA {sci_to_str(est[f'OMEGA({i+1},{i+1})'])}{fx(f'OMEGA({i+1},{i+1})')}" for i in range(nom)] + \
+          [f"$SIGMA {sci_to_str(est['SIGMA(1,1)'])}{fx('SIGMA(1,1)')}", "$ESTIMATION METHOD=1 INTER", "$COVARIANCE"]
     root = scratch_root() / f"c20-run-{os.getpid()}"
     root.mkdir(parents=True, exist_ok=True)
     try:
         (root / "run1.mod").write_text("\n".join(mod) + "\n")
         (root / "run1.csv").write_text("ID,TIME,DV\n1,0,1.0\n1,1,2.0\n2,0,1.5\n2,1,2.5\n")
         (root / "run1.lst").write_text(RUN_LST)
-        (root / "run1.ext").write_text("\n".join(ext_lines()) + "\n")
+        (root / "run1.ext").write_text("\n".join(ext_lines) + "\n")
         for f, m in (("cov", covw), ("cor", corw), ("coi", coiw)):
             if f in files:
                 (root / f"run1.{f}").write_text("\n".join(matrix_lines(m)) + "\n")
@@ -1454,32 +1511,123 @@ def run_rundir(case, mon, tags):
                 warnings.simplefilter("ignore")
                 model = Model.parse_model(root / "run1.mod")
                 res = parse_modelfit_results(model, root / "run1.mod")
-        except Exception as e:  # noqa
-            if "cor" in files and isinstance(e, ValueError) and "read-only" in str(e):
+        except Exception as ex:  # noqa
+            if "cor" in files and isinstance(ex, ValueError) and "read-only" in str(ex):
                 # decidable witness class: a run directory that contains a .cor file (covariance step successful)
                 mon.append({"cls": "rundir-cor-file-read-only",
-                            "what": f"files {files}: parse_modelfit_results raised ValueError: {e} (np.fill_diagonal(cor.values, 1))"})
+                            "what": f"files {files}: parse_modelfit_results raised ValueError: {ex} (np.fill_diagonal(cor.values, 1))"})
             else:
-                mon.append({"cls": "internal-error", "what": f"parse_modelfit_results raised {type(e).__name__}: {e}"})
+                mon.append({"cls": "internal-error", "what": f"parse_modelfit_results raised {type(ex).__name__}: {ex}"})
             return
     finally:
         shutil.rmtree(root, ignore_errors=True)
-    if res is None or res.covariance_matrix is None or res.correlation_matrix is None or res.precision_matrix is None \
-            or res.standard_errors is None:
-        mon.append({"cls": "rundir-missing", "what": f"files {files}: covariance/correlation/precision/standard errors not all reported"})
+    if res is None:
+        mon.append({"cls": "rundir-missing", "what": "parse_modelfit_results returned None"})
         return
-    # pharmpy order: THETA, OMEGA, SIGMA
-    order = [idx[f"THETA{i+1}"] for i in range(nth)] + [idx[f"OMEGA({i+1},{i+1})"] for i in range(nom)] + [idx["SIGMA(1,1)"]]
+    info = f"files {files}, FIX {[lab for lab in par if fixed[lab]]}, rows {[c for c in present]}"
+    # pharmpy order: THETA, OMEGA, SIGMA; estimated parameters only
+    order_labs = [lab for lab in ([f"THETA{i+1}" for i in range(nth)] + [f"OMEGA({i+1},{i+1})" for i in range(nom)] + ["SIGMA(1,1)"])
+                  if not fixed[lab]]
+    names = [model_name(lab) for lab in order_labs]
+    reported = {"parameter_estimates": res.parameter_estimates, "parameter_estimates_sdcorr": res.parameter_estimates_sdcorr,
+                "standard_errors": res.standard_errors, "standard_errors_sdcorr": res.standard_errors_sdcorr}
+
+    # ---- K: the Lean model of results.py on the same ext file
+    if drv is not None:
+        mf = [[rename_label(lab), fixed[lab]] for lab in ([f"THETA{i+1}" for i in range(nth)] + [f"OMEGA({i+1},{i+1})" for i in range(nom)] + ["SIGMA(1,1)"])]
+        ans = drv.ask(["run", ext_lines, mf])
+        if is_err(ans) or ans == ["mixed"]:
+            k.append(f"rundir: model {ans}, code returned results ({info})")
+        else:
+            def cmp_series(what, mrow, x):
+                items = series_items(x)
+                if items is None:
+                    k.append(f"rundir {what}: model row, code {type(x).__name__} with index {getattr(getattr(x, 'index', None), 'names', None)} ({info})")
+                    return
+                ml = [model_name(lab) for lab, _ in mrow]
+                if ml != [i for i, _ in items]:
+                    k.append(f"rundir {what}: labels model {ml} code {[i for i, _ in items]} ({info})")
+                    return
+                for (lab, tok), (_, v) in zip(mrow, items):
+                    if not same(tok, v):
+                        k.append(f"rundir {what}[{lab}]: model {tok!r} code {v!r} ({info})")
+                        return
+
+            def cmp_nan(what, labels, x):
+                items = series_items(x)
+                if items is None or [i for i, _ in items] != labels or not all(is_nan(v) for _, v in items):
+                    k.append(f"rundir {what}: model all-NaN over {labels}, code {items if items is not None else type(x).__name__} ({info})")
+            mest, msd, mse = ans
+            cmp_series("parameter_estimates", mest, reported["parameter_estimates"])
+            if msd == "none":
+                x = reported["parameter_estimates_sdcorr"]
+                if not (isinstance(x, pd.Series) and x.isna().all()):
+                    k.append(f"rundir parameter_estimates_sdcorr: model NaN fallback, code {x!r} ({info})")
+            else:
+                cmp_series("parameter_estimates_sdcorr", msd, reported["parameter_estimates_sdcorr"])
+            plabels = [model_name(lab) for lab, _ in mest]
+            if mse in ("noSE", "aborted"):
+                cmp_nan("standard_errors", plabels, reported["standard_errors"])
+                cmp_nan("standard_errors_sdcorr", plabels, reported["standard_errors_sdcorr"])
+                if mse == "aborted" and res.covariance_matrix is not None:
+                    k.append(f"rundir: model cov_abort, code reports a covariance matrix ({info})")
+            else:
+                cmp_series("standard_errors", mse[1], reported["standard_errors"])
+                cmp_series("standard_errors_sdcorr", mse[2], reported["standard_errors_sdcorr"])
+
+    # ---- monitors: the designated rows, for exactly the estimated parameters
+    def expect(name, code, alt_code=None):
+        x = reported[name]
+        items = series_items(x)
+        if items is None:
+            return mon.append({"cls": f"rundir-{name}-not-a-parameter-series",
+                               "what": f"{info}: {name} is {type(x).__name__} with index {getattr(getattr(x, 'index', None), 'names', None)}, expected values for {names}"})
+        if [i for i, _ in items] != names:
+            return mon.append({"cls": f"rundir-{name}-labels", "what": f"{info}: {name} has labels {[i for i, _ in items]}, estimated parameters are {names}"})
+        for lab, (_, v) in zip(order_labs, items):
+            w = written[alt_code][lab] if alt_code is not None and isvar(lab) else written[code][lab]
+            if not same_exact(w, v):
+                return mon.append({"cls": f"rundir-{name}-wrong-row",
+                                   "what": f"{info}: {name}[{model_name(lab)}] = {v!r}, the designated row has {float(w)!r}"})
+    expect("parameter_estimates", C_FINAL)
+    if rowsp["sdcorr"]:
+        expect("parameter_estimates_sdcorr", C_FINAL, C_SDCORR)
+    else:
+        x = reported["parameter_estimates_sdcorr"]
+        items = series_items(x)
+        if items is None or [i for i, _ in items] != names:
+            mon.append({"cls": "rundir-sdcorr-absent-row-wrong-index",
+                        "what": f"{info}: row -1000000004 absent: parameter_estimates_sdcorr is indexed by "
+                                f"{list(getattr(x, 'index', []))[:3]} instead of the parameters {names}"})
+    have_se = rowsp["se"] and rowsp["sdcorr_se"]
+    if have_se:
+        expect("standard_errors", C_SE)
+        expect("standard_errors_sdcorr", C_SE, C_SDCORR_SE)
+    elif not rowsp["se"]:
+        for nm_ in ("standard_errors", "standard_errors_sdcorr"):
+            items = series_items(reported[nm_])
+            if items is None or [i for i, _ in items] != names or not all(is_nan(v) for _, v in items):
+                mon.append({"cls": "rundir-se-absent-row", "what": f"{info}: row -1000000001 absent but {nm_} = {items}"})
+    if not have_se:
+        tags.append("rundir:no-covariance-step-results")
+        return
+    if res.covariance_matrix is None or res.correlation_matrix is None or res.precision_matrix is None or res.standard_errors is None:
+        mon.append({"cls": "rundir-matrices-missing",
+                    "what": f"{info}: rows -1000000001 and -1000000005 and the matrix files exist, but covariance/correlation/precision "
+                            f"matrix reported as {[type(x).__name__ for x in (res.covariance_matrix, res.correlation_matrix, res.precision_matrix)]}"})
+        return
+    order = [idx[lab] for lab in order_labs]
     cv, rv, pv = res.covariance_matrix.values, res.correlation_matrix.values, res.precision_matrix.values
     sv = np.asarray(res.standard_errors.values, dtype=float)
     if cv.shape != (n, n) or rv.shape != (n, n) or pv.shape != (n, n) or sv.shape != (n,):
-        mon.append({"cls": "rundir-shape", "what": f"files {files}: shapes {cv.shape} {rv.shape} {pv.shape} {sv.shape}, {n} estimated parameters"})
+        mon.append({"cls": "rundir-shape", "what": f"{info}: shapes {cv.shape} {rv.shape} {pv.shape} {sv.shape}, {n} estimated parameters"})
         return
+    for m_, nm_ in ((res.covariance_matrix, "covariance"), (res.correlation_matrix, "correlation"), (res.precision_matrix, "precision")):
+        if list(map(str, m_.index)) != names or list(map(str, m_.columns)) != names:
+            mon.append({"cls": "rundir-matrix-labels", "what": f"{info}: {nm_}_matrix labels {list(m_.index)}, estimated parameters {names}"})
+            return
     sw = se[order]
-    info = f"files {files}, standard errors {sw.min():.1e}..{sw.max():.1e}"
-    # numbers are the numbers of the files (6 significant digits)
-    if not np.all(np.abs(sv / sw - 1) <= 1e-9):
-        mon.append({"cls": "rundir-se", "what": f"{info}: standard_errors differ from row -1000000001"})
+    info += f", standard errors {sw.min():.1e}..{sw.max():.1e}"
     if "cov" in files and not np.all(np.abs(cv - covw[np.ix_(order, order)]) <= 1e-6 * np.outer(sw, sw)):
         mon.append({"cls": "rundir-cov", "what": f"{info}: covariance_matrix differs from the .cov file"})
     # defining relations, on the correlation scale.  Derived quantities must be consistent to rounding error of the
@@ -1565,7 +1713,7 @@ def run_case(case, drv):
     kind = case["kind"]
     tags.append("kind:" + kind)
     if kind == "rundir":
-        run_rundir(case, mon, tags)
+        run_rundir(case, drv, k, mon, tags)
         return {"k": k, "mon": mon, "tags": tags, "nontrivial": True}
     if kind == "relations":
         run_relations(case, drv, k, mon, tags)
